@@ -7,6 +7,7 @@ dkv.DBs receiving the retained-sets."""
 import json
 import vlib
 import storelib as S
+import restartlib
 
 RULE = ("TLC checks LoadsNewest / NewestSurvives / RetainNamesNewest / OperatorsKeepNewest / CurrentIsNewest of Store.tla over every "
         "order of the asynchronous write, delete and notify steps of overlapping publications and a crash after any storage "
@@ -16,7 +17,10 @@ RULE = ("TLC checks LoadsNewest / NewestSurvives / RetainNamesNewest / Operators
         "receives only when the model delivers (unbuffered channel) and with the notification goroutines released in every "
         "order; the job -> operator boundary (Forward / OpHandle) is replayed on the real jobs.Job with held "
         "UpdateRetainedCheckpoints requests; "
-        "directory states with up to three snapshot ids around base64 character-class boundaries are materialised and loaded")
+        "directory states with up to three snapshot ids around base64 character-class boundaries are materialised and loaded; "
+        "one cut per restart (Restart.tla): start() of the real jobs.Job is stepped (read, Deploy per node, splitter start) while "
+        "the gated publication of an acknowledged checkpoint completes in between; every Deploy request and the splitter must carry "
+        "one checkpoint that was the newest completed one during that start")
 
 # (first id, span): windows of ids around the places where a character of the encoded name changes its
 # base64 class ('_' '-' digits lower upper sort differently in ASCII than in value): the last character
@@ -43,6 +47,8 @@ def out_of_order_notify(beh):
 
 def run(c):
     quick = c.tier == "quick"
+    # 0. a restart inside a living job recovers from ONE checkpoint, the newest completed one (spec/Restart.tla, real jobs.Job)
+    restartlib.single_cut_arm(c, c.tier, "C13")
     # 1. the repaired design: every schedule and crash point within the bounds
     S.exhaustive(c, "well-formed acks, whole state graph", MaxLen=1000, StartId=1, IdSpan=4 if quick else 5, MaxInFlight=3,
                  MaxRestarts=2 if quick else 3, Acts=S.GOOD)
@@ -114,4 +120,7 @@ def run(c):
 
 
 def replay(c, path):
+    if restartlib.is_restart_file(json.load(open(path))):
+        restartlib.replay(c, path)
+        return
     S.replay_file(c, path)
